@@ -1,1 +1,488 @@
+(* C07 — proofs about Model/Evolution.v (insertion loop, initial phase, Iterative::run, generation count). *)
 From VRP Require Import Base.Tac Model.Homes Proofs.HomesP Model.Evolution.
+Local Open Scope nat_scope.
+
+(* the evaluator only answers about jobs it was given, and those are taken from `required` *)
+Definition eres_ok (r : eres) (s : hsol) : Prop :=
+  match r with
+  | ESuccess _ j => In j (h_required s)
+  | EFailure (Some j) _ _ => In j (h_required s)
+  | EFailure None _ _ => True
+  end.
+Definition ev_ok (ev : nat -> hsol -> eres) : Prop := forall i s, eres_ok (ev i s) s.
+
+Definition Good (jobs : list Z) (s : hsol) : Prop := Inv jobs s /\ h_required s = [].
+
+(* the quota stays true from its k-th poll on *)
+Definition fires_by (q : quota) (k : nat) : Prop := forall n, k <= S n -> q n = true.
+
+Lemma counting_fires_by k : fires_by (counting_quota (Some k)) k.
+Proof. intros n H. unfold counting_quota. apply Nat.leb_le. exact H. Qed.
+
+Lemma counting_never n : counting_quota None n = false.
+Proof. reflexivity. Qed.
+
+(* ------------------------------------------------------------------ lists *)
+Lemma filter_len_le {A} (f : A -> bool) l : length (filter f l) <= length l.
+Proof. induction l as [|a l IH]; cbn [filter length]; [lia|destruct (f a); cbn [length]; lia]. Qed.
+
+Lemma zremove_length_lt j l : In j l -> length (zremove j l) < length l.
+Proof.
+  unfold zremove. induction l as [|a l IH]; cbn [In filter length]; intros H; [contradiction|].
+  pose proof (filter_len_le (fun k => negb (k =? j)%Z) l) as Hle.
+  destruct H as [->|H].
+  - rewrite Z.eqb_refl. cbn [negb]. lia.
+  - specialize (IH H). destruct (negb (a =? j)%Z); cbn [length]; lia.
+Qed.
+
+(* ------------------------------------------------------------------ one iteration of the insertion loop *)
+Lemma iterate_polls r st : p_polls (iterate r st) = p_polls st.
+Proof.
+  destruct r as [k j|job a h]; cbn [iterate apply_success p_polls]; [reflexivity|].
+  unfold apply_failure. destruct (h && (0 <? p_reg st)); reflexivity.
+Qed.
+
+Lemma iterate_ins r st : p_ins st <= p_ins (iterate r st) <= S (p_ins st).
+Proof.
+  destruct r as [k j|job a h]; cbn [iterate apply_success p_ins]; [lia|].
+  unfold apply_failure. destruct (h && (0 <? p_reg st)); cbn [p_ins]; lia.
+Qed.
+
+Lemma iterate_inv jobs r st : Inv jobs (p_sol st) -> eres_ok r (p_sol st) -> Inv jobs (p_sol (iterate r st)).
+Proof.
+  intros HI Hok. destruct r as [k j|job a h]; cbn [iterate].
+  - cbn [apply_success p_sol]. apply step_insert; assumption.
+  - unfold apply_failure. destruct (h && (0 <? p_reg st)); cbn [p_sol].
+    + apply step_push_empty. exact HI.
+    + destruct job as [j|]; cbn [eres_ok] in Hok.
+      * destruct (a || false); [apply step_finalize|]; apply step_fail; assumption.
+      * destruct (a || true); [apply step_finalize|]; exact HI.
+Qed.
+
+Lemma iterate_measure r st :
+  h_required (p_sol st) <> [] -> eres_ok r (p_sol st) -> measure (iterate r st) < measure st.
+Proof.
+  intros Hne Hok. unfold measure. destruct r as [k j|job a h]; cbn [iterate].
+  - cbn [apply_success p_sol p_reg step h_required]. cbn [eres_ok] in Hok.
+    pose proof (zremove_length_lt j _ Hok). destruct (length (h_routes (p_sol st)) <=? k); lia.
+  - unfold apply_failure. destruct (h && (0 <? p_reg st)) eqn:Hh; cbn [p_sol p_reg].
+    + apply andb_true_iff in Hh. destruct Hh as [_ Hh]. apply Nat.ltb_lt in Hh. cbn [step h_required]. lia.
+    + assert (Hpos : 0 < length (h_required (p_sol st))).
+      { destruct (h_required (p_sol st)); [congruence|cbn; lia]. }
+      destruct job as [j|]; cbn [eres_ok] in Hok.
+      * pose proof (zremove_length_lt j _ Hok). destruct (a || false); cbn [step h_required length]; lia.
+      * destruct (a || true) eqn:E; [cbn [step h_required length]; lia|]. rewrite orb_true_r in E. discriminate.
+Qed.
+
+(* ------------------------------------------------------------------ the insertion loop *)
+Section PLoop.
+  Variable jobs : list Z.
+  Variable ev : nat -> hsol -> eres.
+  Variable q : quota.
+  Hypothesis Hev : ev_ok ev.
+
+  Lemma ploop_some : forall fuel i st,
+      Inv jobs (p_sol st) -> measure st <= fuel ->
+      exists st', ploop fuel ev q i st = Some st'
+                  /\ Inv jobs (p_sol st')
+                  /\ p_polls st <= p_polls st'
+                  /\ (forall m, q m = true -> p_polls st <= m -> p_polls st' <= S m)
+                  /\ p_ins st <= p_ins st'
+                  /\ p_ins st' + p_polls st <= p_ins st + p_polls st'.
+  Proof.
+    induction fuel as [|f IH]; intros i st HI Hm; cbn [ploop];
+      destruct (h_required (p_sol st)) as [|x req] eqn:Hreq.
+    - exists st. split; [reflexivity|]. split; [exact HI|]. repeat split; intros; lia.
+    - destruct (q (p_polls st)) eqn:Hq.
+      + exists (poll st). cbn [poll p_sol p_polls p_ins]. split; [reflexivity|]. split; [exact HI|]. repeat split; intros; lia.
+      + unfold measure in Hm. rewrite Hreq in Hm. cbn [length] in Hm. lia.
+    - exists st. split; [reflexivity|]. split; [exact HI|]. repeat split; intros; lia.
+    - destruct (q (p_polls st)) eqn:Hq.
+      + exists (poll st). cbn [poll p_sol p_polls p_ins]. split; [reflexivity|]. split; [exact HI|]. repeat split; intros; lia.
+      + set (st2 := iterate (ev i (p_sol st)) (poll st)).
+        assert (Hne : h_required (p_sol (poll st)) <> []) by (cbn [poll p_sol]; rewrite Hreq; discriminate).
+        assert (Hok : eres_ok (ev i (p_sol st)) (p_sol (poll st))) by (cbn [poll p_sol]; apply Hev).
+        assert (HI2 : Inv jobs (p_sol st2)) by (apply iterate_inv; [exact HI|exact Hok]).
+        assert (Hm2 : measure st2 <= f).
+        { pose proof (iterate_measure _ _ Hne Hok) as H. fold st2 in H. unfold measure in H, Hm |- *. cbn [poll p_sol p_reg] in H. lia. }
+        destruct (IH (S i) st2 HI2 Hm2) as (st' & E & HI' & Hp & Hstop & Hi1 & Hi2).
+        assert (Hpolls2 : p_polls st2 = S (p_polls st)) by (unfold st2; rewrite iterate_polls; reflexivity).
+        pose proof (iterate_ins (ev i (p_sol st)) (poll st)) as Hins. fold st2 in Hins. cbn [poll p_ins] in Hins.
+        exists st'. split; [exact E|]. split; [exact HI'|]. split; [lia|]. split; [|split; lia].
+        intros m Hqm Hle. apply Hstop; [exact Hqm|].
+        assert (p_polls st <> m) by (intros Heq; rewrite Heq in Hq; congruence). lia.
+  Qed.
+
+  Lemma ploop_quota_first fuel i st :
+    q (p_polls st) = true -> ploop fuel ev q i st = Some st \/ ploop fuel ev q i st = Some (poll st).
+  Proof.
+    intros Hq. destruct fuel; cbn [ploop]; destruct (h_required (p_sol st)); rewrite ?Hq; auto.
+  Qed.
+
+  Theorem process_total st :
+    Inv jobs (p_sol st) ->
+    exists st', process ev q st = Some st'
+                /\ Inv jobs (p_sol st') /\ h_required (p_sol st') = []
+                /\ p_polls st <= p_polls st'
+                /\ (forall m, q m = true -> p_polls st <= m -> p_polls st' <= S m)
+                /\ p_ins st <= p_ins st'
+                /\ p_ins st' + p_polls st <= p_ins st + p_polls st'.
+  Proof.
+    intros HI. unfold process.
+    assert (HI0 : Inv jobs (p_sol (prepare st))) by (cbn [prepare p_sol]; apply step_prepare; exact HI).
+    destruct (ploop_some (measure (prepare st)) 0 (prepare st) HI0 (le_n _)) as (st1 & E & HI1 & Hp & Hstop & Hi1 & Hi2).
+    rewrite E. exists (finalize st1). cbn [finalize p_sol p_polls p_ins prepare] in *.
+    split; [reflexivity|]. split; [apply step_finalize; exact HI1|]. split; [reflexivity|]. auto.
+  Qed.
+
+  (* the quota is already true at the first poll: nothing is inserted, every pending job is reported unassigned *)
+  Theorem process_quota_first st :
+    q (p_polls st) = true ->
+    exists st', process ev q st = Some st'
+                /\ h_routes (p_sol st') = h_routes (p_sol st)
+                /\ p_ins st' = p_ins st
+                /\ p_polls st' <= S (p_polls st)
+                /\ h_required (p_sol st') = []
+                /\ (forall j, In j (h_unassigned (p_sol st')) <-> In j (h_unassigned (p_sol st)) \/ In j (h_required (p_sol st))).
+  Proof.
+    intros Hq. unfold process.
+    assert (Hq0 : q (p_polls (prepare st)) = true) by exact Hq.
+    destruct (ploop_quota_first (measure (prepare st)) 0 (prepare st) Hq0) as [E|E]; rewrite E;
+      eexists; (split; [reflexivity|]); cbn [finalize prepare poll p_sol p_polls p_ins step h_routes h_required h_unassigned];
+      (repeat split; [lia| |]); intros H; try (apply fold_insert_In in H; rewrite in_app_iff in H; tauto);
+      apply fold_insert_In; rewrite in_app_iff; tauto.
+  Qed.
+End PLoop.
+
+(* what reaches the writer after ANY interruption of the loop is an exact partition of the plan *)
+Corollary process_partition jobs ev q st st' :
+  ev_ok ev -> Inv jobs (p_sol st) -> process ev q st = Some st' ->
+  forall j, In j jobs ->
+    (count_occ Z.eq_dec (concat (h_routes (p_sol st'))) j = 1 /\ count_occ Z.eq_dec (reported_unassigned (p_sol st')) j = 0)
+    \/ (count_occ Z.eq_dec (concat (h_routes (p_sol st'))) j = 0 /\ count_occ Z.eq_dec (reported_unassigned (p_sol st')) j = 1).
+Proof.
+  intros Hev HI E. destruct (process_total jobs ev q Hev st HI) as (st2 & E2 & HI2 & Hreq & _).
+  rewrite E in E2. injection E2 as <-. exact (proj1 (reported_partition jobs _ HI2 Hreq)).
+Qed.
+
+(* ------------------------------------------------------------------ termination criteria *)
+Lemma is_termination_gen_limit ts l gen tm : forall tp,
+    gen_limit ts = Some l -> l <= gen -> fst (is_termination ts gen tm tp) = true.
+Proof.
+  induction ts as [|t r IH]; intros tp Hl Hle; cbn [gen_limit] in Hl; [discriminate|].
+  destruct t as [l'|]; cbn [is_termination].
+  - injection Hl as ->. apply Nat.leb_le in Hle. rewrite Hle. reflexivity.
+  - destruct (tm tp); [reflexivity|]. apply IH; assumption.
+Qed.
+
+Lemma gen_limit_cfg cfg N : c_max_gen cfg = Some N -> gen_limit (cfg_terms cfg) = Some N.
+Proof. intros H. unfold cfg_terms, terminations. rewrite H. destruct (c_max_time cfg); reflexivity. Qed.
+
+Lemma is_termination_exact N mt gen tm tp :
+  (forall t, tm t = false) -> fst (is_termination (terminations (Some N) mt) gen tm tp) = (N <=? gen).
+Proof.
+  intros Htm. unfold terminations. destruct mt; cbn [app is_termination]; destruct (N <=? gen); try reflexivity.
+  rewrite Htm. reflexivity.
+Qed.
+
+Definition first_check_passes (cfg : econfig) (W : oracles) : Prop :=
+  fst (is_termination (cfg_terms cfg) 0 (o_time W) 0) = false /\ est_exceeds (cfg_terms cfg) 0 (o_init_quota W 0) = false.
+
+Lemma first_check_positive_limit cfg W N :
+  c_max_gen cfg = Some N -> 1 <= N -> (c_max_time cfg = true -> o_time W 0 = false /\ o_init_quota W 0 = false) ->
+  first_check_passes cfg W.
+Proof.
+  intros Hg HN Ht. unfold first_check_passes, cfg_terms, terminations. rewrite Hg.
+  assert (E1 : (N <=? 0) = false) by (apply Nat.leb_gt; lia).
+  assert (E2 : (N =? 0) = false) by (apply Nat.eqb_neq; lia).
+  assert (E3 : (N <? 20 * 0) = false) by (apply Nat.ltb_ge; lia).
+  destruct (c_max_time cfg); cbn [app is_termination est_exceeds existsb]; rewrite E1, E2, E3.
+  - destruct (Ht eq_refl) as [H1 H2]. rewrite H1, H2. split; reflexivity.
+  - split; reflexivity.
+Qed.
+
+(* ------------------------------------------------------------------ telemetry *)
+Definition tele_wf (t : tele) : Prop :=
+  t_metric_gens t = t_stat_gen t
+  /\ ((t_next t = None /\ t_stat_gen t = 0) \/ t_next t = Some (S (t_stat_gen t))).
+
+Lemma tele0_wf : tele_wf tele0.
+Proof. split; [reflexivity|left; split; reflexivity]. Qed.
+
+Lemma on_generation_wf t b : tele_wf (on_generation t b).
+Proof. split; [reflexivity|right; reflexivity]. Qed.
+
+Lemma on_generation_gens t b : gens_run (on_generation t b) = S (gens_run t).
+Proof. unfold gens_run, on_generation. cbn [t_next]. destruct (t_next t); reflexivity. Qed.
+
+Lemma on_generation_stat t b : t_stat_gen (on_generation t b) = gens_run t.
+Proof. unfold gens_run, on_generation. cbn [t_stat_gen]. destruct (t_next t); reflexivity. Qed.
+
+Lemma on_generation_evolution t : length (t_evolution (on_generation t true)) = S (length (t_evolution t)).
+Proof. unfold on_generation. cbn [t_evolution]. rewrite app_length. cbn [length]. lia. Qed.
+
+Lemma tele_wf_gens t : tele_wf t -> gens_run t = 0 /\ t_stat_gen t = 0 \/ gens_run t = S (t_stat_gen t).
+Proof. intros [_ [[H1 H2]|H]]; unfold gens_run; [rewrite H1; left; split; [reflexivity|exact H2]|rewrite H; right; reflexivity]. Qed.
+
+(* ------------------------------------------------------------------ evolution *)
+Definition oracles_ok (W : oracles) : Prop :=
+  (forall idx, ev_ok (o_init_ev W idx)) /\ (forall g j, ev_ok (o_search_ev W g j)).
+
+Lemma rop_guards ops : forall s, guards s (map rop_hop ops).
+Proof. induction ops as [|o r IH]; intros s; cbn [map guards]; [exact I|split; [destruct o; exact I|apply IH]]. Qed.
+
+Section Evolve.
+  Variable cfg : econfig.
+  Variable W : oracles.
+  Variable q : quota.
+  Hypothesis HW : oracles_ok W.
+  Let jobs := c_jobs cfg.
+
+  Lemma process_good ev st : ev_ok ev -> Inv jobs (p_sol st) ->
+    exists st', process ev q st = Some st' /\ Good jobs (p_sol st') /\ p_polls st <= p_polls st'.
+  Proof.
+    intros Hev HI. destruct (process_total jobs ev q Hev st HI) as (st' & E & HI' & Hreq & Hp & _).
+    exists st'. split; [exact E|]. split; [split; assumption|exact Hp].
+  Qed.
+
+  Lemma offspring_some g pop : Forall (Good jobs) pop -> forall parents j polls,
+      exists offs polls', offspring g j parents cfg W q pop polls = Some (offs, polls')
+                          /\ Forall (Good jobs) offs /\ polls <= polls'.
+  Proof.
+    intros Hpop. induction parents as [|p r IH]; intros j polls; cbn [offspring].
+    - exists [], (polls + o_skip W g j). split; [reflexivity|]. split; [constructor|lia].
+    - destruct (nth_error pop p) as [s|] eqn:Hs; [|apply IH].
+      assert (Hgood : Good jobs s) by (eapply Forall_forall; [exact Hpop|eapply nth_error_In; exact Hs]).
+      assert (HIr : Inv jobs (run s (map rop_hop (o_ruin W g j s)))).
+      { apply homes_reach; [exact (proj1 Hgood)|apply rop_guards]. }
+      destruct (process_good (o_search_ev W g j) (mkP (run s (map rop_hop (o_ruin W g j s))) (c_reg cfg) (polls + o_skip W g j) 0)
+                             (proj2 HW g j) HIr) as (pst & E & Hg & Hp).
+      rewrite E. cbn [p_polls] in Hp.
+      destruct (IH (S j) (p_polls pst)) as (rest & polls' & E2 & Hrest & Hp2). rewrite E2.
+      exists (p_sol pst :: rest), polls'. split; [reflexivity|]. split; [constructor; assumption|lia].
+  Qed.
+
+  Lemma generation_some st : Forall (Good jobs) (s_pop st) ->
+    exists offs polls, generation cfg W q st
+                       = Some (mkS (s_pop st ++ offs) (on_generation (s_tele st) (match s_pop st ++ offs with [] => false | _ => true end))
+                                   polls (s_tpolls st))
+                       /\ Forall (Good jobs) offs /\ s_polls st <= polls.
+  Proof.
+    intros Hpop. unfold generation.
+    destruct (offspring_some (gens_run (s_tele st)) (s_pop st) Hpop (o_parents W (gens_run (s_tele st)) (s_pop st)) 0 (s_polls st))
+      as (offs & polls & E & Hoffs & Hp).
+    rewrite E. exists offs, polls. split; [reflexivity|]. split; assumption.
+  Qed.
+
+  Lemma initial_some : forall n idx st, Forall (Good jobs) (s_pop st) ->
+      exists st1, initial n idx cfg W q st = Some st1
+                  /\ Forall (Good jobs) (s_pop st1) /\ s_tele st1 = s_tele st /\ (exists l, s_pop st1 = s_pop st ++ l).
+  Proof.
+    induction n as [|n IH]; intros idx st Hpop; cbn [initial].
+    - exists st. split; [reflexivity|]. split; [exact Hpop|]. split; [reflexivity|exists []; rewrite app_nil_r; reflexivity].
+    - destruct (is_termination (cfg_terms cfg) (t_stat_gen (s_tele st)) (o_time W) (s_tpolls st)) as [term tp].
+      destruct (est_exceeds (cfg_terms cfg) (t_stat_gen (s_tele st)) (o_init_quota W idx) || term).
+      + eexists. split; [reflexivity|]. cbn [s_pop s_tele]. split; [exact Hpop|]. split; [reflexivity|exists []; rewrite app_nil_r; reflexivity].
+      + destruct (process_good (o_init_ev W idx) (mkP (init jobs) (c_reg cfg) (s_polls st) 0) (proj1 HW idx) (homes_init jobs))
+          as (p & E & Hg & _).
+        fold jobs. rewrite E.
+        destruct (IH (S idx) (mkS (s_pop st ++ [p_sol p]) (s_tele st) (p_polls p) tp)) as (st1 & E1 & Hp1 & Ht1 & l & Hl).
+        { cbn [s_pop]. apply Forall_app. split; [exact Hpop|constructor; [exact Hg|constructor]]. }
+        exists st1. split; [exact E1|]. split; [exact Hp1|]. split; [exact Ht1|].
+        exists ([p_sol p] ++ l). rewrite Hl. cbn [s_pop]. rewrite <- app_assoc. reflexivity.
+  Qed.
+
+  Lemma initial_first n st :
+    fst (is_termination (cfg_terms cfg) (t_stat_gen (s_tele st)) (o_time W) (s_tpolls st)) = false ->
+    est_exceeds (cfg_terms cfg) (t_stat_gen (s_tele st)) (o_init_quota W 0) = false ->
+    Forall (Good jobs) (s_pop st) ->
+    exists st1, initial (S n) 0 cfg W q st = Some st1
+                /\ Forall (Good jobs) (s_pop st1) /\ s_tele st1 = s_tele st /\ s_pop st1 <> [].
+  Proof.
+    intros Ht He Hpop. cbn [initial].
+    destruct (is_termination (cfg_terms cfg) (t_stat_gen (s_tele st)) (o_time W) (s_tpolls st)) as [term tp].
+    cbn [fst] in Ht. subst term. rewrite He. cbn [orb].
+    destruct (process_good (o_init_ev W 0) (mkP (init jobs) (c_reg cfg) (s_polls st) 0) (proj1 HW 0) (homes_init jobs))
+      as (p & E & Hg & _).
+    fold jobs. rewrite E.
+    destruct (initial_some n 1 (mkS (s_pop st ++ [p_sol p]) (s_tele st) (p_polls p) tp)) as (st1 & E1 & Hp1 & Ht1 & l & Hl).
+    { cbn [s_pop]. apply Forall_app. split; [exact Hpop|constructor; [exact Hg|constructor]]. }
+    exists st1. split; [exact E1|]. split; [exact Hp1|]. split; [exact Ht1|].
+    rewrite Hl. cbn [s_pop]. destruct (s_pop st); discriminate.
+  Qed.
+
+  (* Iterative::run under a generation limit l: returns, keeps every individual good, never exceeds l + 1 generations,
+     and starts no generation once the quota has fired *)
+  Lemma iloop_some l k :
+    gen_limit (cfg_terms cfg) = Some l ->
+    forall fuel st,
+      Forall (Good jobs) (s_pop st) -> tele_wf (s_tele st) -> gens_run (s_tele st) <= S l -> S l - gens_run (s_tele st) <= fuel ->
+      exists st', iloop fuel cfg W q st = Some st'
+                  /\ Forall (Good jobs) (s_pop st') /\ (exists e, s_pop st' = s_pop st ++ e)
+                  /\ tele_wf (s_tele st') /\ gens_run (s_tele st') <= S l
+                  /\ (fires_by q k -> gens_run (s_tele st) <= s_polls st -> gens_run (s_tele st') <= Nat.max (gens_run (s_tele st)) (pred k))
+                  /\ (s_pop st <> [] -> length (t_evolution (s_tele st)) = gens_run (s_tele st)
+                      -> length (t_evolution (s_tele st')) = gens_run (s_tele st')).
+  Proof.
+    intros Hl. induction fuel as [|f IH]; intros st Hpop Hwf Hg Hfuel; cbn [iloop];
+      destruct (is_termination (cfg_terms cfg) (t_stat_gen (s_tele st)) (o_time W) (s_tpolls st)) as [term tp] eqn:Eterm;
+      destruct (term || q (s_polls st)) eqn:Estop.
+    - eexists. split; [reflexivity|]. cbn [s_pop s_tele]. split; [exact Hpop|]. split; [exists []; rewrite app_nil_r; reflexivity|].
+      split; [exact Hwf|]. split; [exact Hg|]. split; [intros; lia|auto].
+    - exfalso. apply orb_false_iff in Estop. destruct Estop as [Et _]. subst term.
+      pose proof (is_termination_gen_limit (cfg_terms cfg) l (t_stat_gen (s_tele st)) (o_time W) (s_tpolls st) Hl) as Hterm.
+      rewrite Eterm in Hterm. cbn [fst] in Hterm.
+      destruct (tele_wf_gens _ Hwf) as [[H1 H2]|H1].
+      + assert (l = 0) by lia. subst l. rewrite H2 in Hterm. specialize (Hterm (le_n 0)). discriminate.
+      + assert (l <= t_stat_gen (s_tele st)) by lia. specialize (Hterm H). discriminate.
+    - eexists. split; [reflexivity|]. cbn [s_pop s_tele]. split; [exact Hpop|]. split; [exists []; rewrite app_nil_r; reflexivity|].
+      split; [exact Hwf|]. split; [exact Hg|]. split; [intros; lia|auto].
+    - apply orb_false_iff in Estop. destruct Estop as [Et Eq]. subst term.
+      assert (Hlt : gens_run (s_tele st) <= l).
+      { pose proof (is_termination_gen_limit (cfg_terms cfg) l (t_stat_gen (s_tele st)) (o_time W) (s_tpolls st) Hl) as Hterm.
+        rewrite Eterm in Hterm. cbn [fst] in Hterm.
+        destruct (tele_wf_gens _ Hwf) as [[H1 H2]|H1]; [lia|].
+        destruct (le_lt_dec l (t_stat_gen (s_tele st))) as [Hle|Hgt]; [specialize (Hterm Hle); discriminate|lia]. }
+      set (st1 := mkS (s_pop st) (s_tele st) (S (s_polls st)) tp).
+      destruct (generation_some st1 Hpop) as (offs & polls & E & Hoffs & Hp). rewrite E.
+      cbn [s_pop s_tele s_polls s_tpolls st1] in *.
+      set (st2 := mkS (s_pop st ++ offs) (on_generation (s_tele st) (match s_pop st ++ offs with [] => false | _ => true end)) polls tp).
+      assert (Hpop2 : Forall (Good jobs) (s_pop st2)) by (cbn [s_pop st2]; apply Forall_app; split; assumption).
+      assert (Hg2 : gens_run (s_tele st2) = S (gens_run (s_tele st))) by (cbn [s_tele st2]; apply on_generation_gens).
+      destruct (IH st2 Hpop2) as (st' & E' & Hpop' & (e & He) & Hwf' & Hg' & Hq' & Hev').
+      { cbn [s_tele st2]. apply on_generation_wf. }
+      { lia. }
+      { lia. }
+      exists st'. split; [exact E'|]. split; [exact Hpop'|].
+      split; [exists (offs ++ e); rewrite He; cbn [s_pop st2]; rewrite app_assoc; reflexivity|].
+      split; [exact Hwf'|]. split; [exact Hg'|]. split.
+      + intros Hk Hinv.
+        assert (Hk2 : S (s_polls st) < k).
+        { destruct (le_lt_dec k (S (s_polls st))) as [Hle|Hgt]; [|exact Hgt]. rewrite (Hk _ Hle) in Eq. discriminate. }
+        assert (gens_run (s_tele st2) <= s_polls st2) by (cbn [s_polls st2]; lia).
+        specialize (Hq' Hk H). lia.
+      + intros Hne Hlen. apply Hev'.
+        * cbn [s_pop st2]. destruct (s_pop st); [congruence|discriminate].
+        * cbn [s_tele st2]. rewrite on_generation_gens.
+          destruct (s_pop st ++ offs) eqn:Eapp.
+          -- destruct (s_pop st); [congruence|discriminate].
+          -- rewrite on_generation_evolution. lia.
+  Qed.
+
+  (* nothing but the generation limit stops the loop: exactly l + 1 generations *)
+  Lemma iloop_exact N :
+    c_max_gen cfg = Some N -> 1 <= N -> (forall n, q n = false) -> (forall t, o_time W t = false) ->
+    forall fuel st,
+      Forall (Good jobs) (s_pop st) -> tele_wf (s_tele st) -> gens_run (s_tele st) <= S N -> S N - gens_run (s_tele st) <= fuel ->
+      exists st', iloop fuel cfg W q st = Some st' /\ gens_run (s_tele st') = S N /\ t_metric_gens (s_tele st') = N
+                  /\ (exists e, s_pop st' = s_pop st ++ e).
+  Proof.
+    intros Hc HN Hq Htm. induction fuel as [|f IH]; intros st Hpop Hwf Hg Hfuel; cbn [iloop];
+      pose proof (is_termination_exact N (c_max_time cfg) (t_stat_gen (s_tele st)) (o_time W) (s_tpolls st) Htm) as Hterm;
+      unfold cfg_terms; rewrite Hc;
+      destruct (is_termination (terminations (Some N) (c_max_time cfg)) (t_stat_gen (s_tele st)) (o_time W) (s_tpolls st)) as [term tp];
+      cbn [fst] in Hterm; subst term; rewrite Hq, orb_false_r;
+      destruct (N <=? t_stat_gen (s_tele st)) eqn:E.
+    - apply Nat.leb_le in E. eexists. split; [reflexivity|]. cbn [s_tele].
+      destruct (tele_wf_gens _ Hwf) as [[H1 H2]|H1]; [lia|]. destruct Hwf as [Hm _].
+      split; [lia|]. split; [lia|]. exists []. cbn [s_pop]. rewrite app_nil_r. reflexivity.
+    - apply Nat.leb_gt in E. exfalso. destruct (tele_wf_gens _ Hwf) as [[H1 H2]|H1]; lia.
+    - apply Nat.leb_le in E. eexists. split; [reflexivity|]. cbn [s_tele].
+      destruct (tele_wf_gens _ Hwf) as [[H1 H2]|H1]; [lia|]. destruct Hwf as [Hm _].
+      split; [lia|]. split; [lia|]. exists []. cbn [s_pop]. rewrite app_nil_r. reflexivity.
+    - apply Nat.leb_gt in E.
+      set (st1 := mkS (s_pop st) (s_tele st) (S (s_polls st)) tp).
+      destruct (generation_some st1 Hpop) as (offs & polls & Eg & Hoffs & Hp). rewrite Eg.
+      cbn [s_pop s_tele s_polls s_tpolls st1] in *.
+      match goal with |- exists st', iloop f cfg W q ?s = _ /\ _ => destruct (IH s) as (st' & E' & Hg' & Hm' & e & He) end;
+        cbn [s_pop s_tele].
+      + apply Forall_app; split; assumption.
+      + apply on_generation_wf.
+      + rewrite on_generation_gens. destruct (tele_wf_gens _ Hwf) as [[H1 H2]|H1]; lia.
+      + rewrite on_generation_gens. lia.
+      + exists st'. split; [exact E'|]. split; [exact Hg'|]. split; [exact Hm'|].
+        exists (offs ++ e). rewrite He. cbn [s_pop]. rewrite app_assoc. reflexivity.
+  Qed.
+
+  Lemma pick_in (pop : list hsol) h t n : pop = h :: t -> In (nth n pop h) pop.
+  Proof. intros ->. destruct (nth_in_or_default n (h :: t) h) as [H|H]; [exact H|rewrite H; left; reflexivity]. Qed.
+
+  Theorem evolve_returns N k :
+    c_max_gen cfg = Some N -> 1 <= c_init_ops cfg -> 1 <= c_init_size cfg -> first_check_passes cfg W ->
+    exists best st, evolve cfg W q = EOk best st
+                    /\ Good jobs best /\ In best (s_pop st) /\ Forall (Good jobs) (s_pop st)
+                    /\ gens_run (s_tele st) <= S N /\ (fires_by q k -> gens_run (s_tele st) <= pred k)
+                    /\ length (t_evolution (s_tele st)) = gens_run (s_tele st).
+  Proof.
+    intros Hc Hops Hsize [Hf1 Hf2]. unfold evolve.
+    assert (E0 : (c_init_ops cfg =? 0) = false) by (apply Nat.eqb_neq; lia). rewrite E0.
+    destruct (c_init_size cfg) as [|n] eqn:En; [lia|].
+    destruct (initial_first n estate0 Hf1 Hf2 (Forall_nil _)) as (st1 & E1 & Hp1 & Ht1 & Hne1). rewrite E1.
+    pose proof (gen_limit_cfg cfg N Hc) as Hl. unfold loop_fuel. rewrite Hl.
+    destruct (iloop_some N k Hl (S N) st1 Hp1) as (st2 & E2 & Hp2 & (e & He) & Hwf2 & Hg2 & Hq2 & Hev2).
+    { rewrite Ht1. apply tele0_wf. }
+    { rewrite Ht1. cbn. lia. }
+    { rewrite Ht1. cbn. lia. }
+    rewrite E2. destruct (s_pop st2) as [|h t] eqn:Epop.
+    - exfalso. rewrite He in Epop. destruct (s_pop st1); [congruence|discriminate].
+    - exists (nth (o_best W (h :: t)) (h :: t) h), st2. split; [reflexivity|].
+      assert (Hin : In (nth (o_best W (h :: t)) (h :: t) h) (h :: t)) by (eapply pick_in; reflexivity).
+      rewrite ?Epop.
+      split; [eapply Forall_forall; [exact Hp2|exact Hin]|]. split; [exact Hin|]. split; [exact Hp2|]. split; [exact Hg2|].
+      rewrite Ht1 in Hq2, Hev2. cbn [tele0 gens_run t_next t_evolution length] in Hq2, Hev2. split.
+      + intros Hk. specialize (Hq2 Hk (Nat.le_0_l _)). change (gens_run (s_tele estate0)) with 0 in Hq2. lia.
+      + apply Hev2; [exact Hne1|reflexivity].
+  Qed.
+
+  Theorem evolve_generations_exact N :
+    c_max_gen cfg = Some N -> 1 <= N -> 1 <= c_init_ops cfg -> 1 <= c_init_size cfg -> first_check_passes cfg W ->
+    (forall n, q n = false) -> (forall t, o_time W t = false) ->
+    exists best st, evolve cfg W q = EOk best st /\ gens_run (s_tele st) = S N /\ t_metric_gens (s_tele st) = N.
+  Proof.
+    intros Hc HN Hops Hsize [Hf1 Hf2] Hq Htm. unfold evolve.
+    assert (E0 : (c_init_ops cfg =? 0) = false) by (apply Nat.eqb_neq; lia). rewrite E0.
+    destruct (c_init_size cfg) as [|n] eqn:En; [lia|].
+    destruct (initial_first n estate0 Hf1 Hf2 (Forall_nil _)) as (st1 & E1 & Hp1 & Ht1 & Hne1). rewrite E1.
+    pose proof (gen_limit_cfg cfg N Hc) as Hl. unfold loop_fuel. rewrite Hl.
+    destruct (iloop_exact N Hc HN Hq Htm (S N) st1 Hp1) as (st2 & E2 & Hg2 & Hm2 & e & He).
+    { rewrite Ht1. apply tele0_wf. }
+    { rewrite Ht1. cbn. lia. }
+    { rewrite Ht1. cbn. lia. }
+    rewrite E2. destruct (s_pop st2) as [|h t] eqn:Epop.
+    - exfalso. destruct (s_pop st1); [congruence|discriminate].
+    - eexists _, st2. split; [reflexivity|]. split; assumption.
+  Qed.
+End Evolve.
+
+(* ------------------------------------------------------------------ the documented errors *)
+Theorem evolve_no_initial_operator cfg W q : c_init_ops cfg = 0 -> evolve cfg W q = EErr ErrNoInitialMethods.
+Proof. intros H. unfold evolve. rewrite H. reflexivity. Qed.
+
+Theorem evolve_zero_generations cfg W q : c_max_gen cfg = Some 0 -> 1 <= c_init_ops cfg -> evolve cfg W q = EErr ErrNoSolution.
+Proof.
+  intros Hc Hops. unfold evolve.
+  assert (E0 : (c_init_ops cfg =? 0) = false) by (apply Nat.eqb_neq; lia). rewrite E0.
+  assert (Hterm : forall tp, is_termination (cfg_terms cfg) 0 (o_time W) tp = (true, tp)).
+  { intros tp. unfold cfg_terms, terminations. rewrite Hc. destruct (c_max_time cfg); reflexivity. }
+  assert (Hinit : initial (c_init_size cfg) 0 cfg W q estate0 = Some estate0).
+  { destruct (c_init_size cfg); cbn [initial]; [reflexivity|].
+    change (t_stat_gen (s_tele estate0)) with 0. rewrite Hterm. cbv beta iota zeta. rewrite orb_true_r. reflexivity. }
+  rewrite Hinit. unfold loop_fuel. rewrite (gen_limit_cfg cfg 0 Hc). cbn [iloop].
+  change (t_stat_gen (s_tele estate0)) with 0. rewrite Hterm. reflexivity.
+Qed.
+
+(* ------------------------------------------------------------------ DecomposeSearch inner loop *)
+Lemma decompose_inner_bounds q inner : forall repeat polls done,
+    let r := decompose_inner repeat q polls inner done in
+    done <= fst r <= done + repeat /\ (1 <= repeat -> S done <= fst r) /\ polls <= snd r.
+Proof.
+  induction repeat as [|r IH]; intros polls done; cbn [decompose_inner].
+  - cbn [fst snd]. lia.
+  - destruct (q (polls + inner done)); cbn [fst snd].
+    + lia.
+    + specialize (IH (S (polls + inner done)) (S done)). cbv zeta in IH. lia.
+Qed.
+
+Lemma decompose_inner_reached q inner repeat polls done :
+  (forall n, q n = true) -> 1 <= repeat -> fst (decompose_inner repeat q polls inner done) = S done.
+Proof. intros Hq Hr. destruct repeat; [lia|]. cbn [decompose_inner]. rewrite Hq. reflexivity. Qed.
